@@ -25,8 +25,10 @@ VARIABLES ptype,      \* what the target reports as its peripheral device type: 
           disk, cap, ident,   \* the target: two blocks, capacity (1..2), identity (1..2)
           fault,      \* completion the target gives the next command (0 = GOOD)
           kept,       \* command object the caller keeps: "none" | "cap" | "inq"
+          held,       \* sense key of the FIRST CheckCondition the caller caught and still holds (0 = none)
+          bset,       \* a second facade, attached to a media changer for the whole session: its set
           hist, exported
-vars == <<ptype, aset, disk, cap, ident, fault, kept, hist, exported>>
+vars == <<ptype, aset, disk, cap, ident, fault, kept, held, bset, hist, exported>>
 
 \* only types the property names: for an unnamed type reported by the SAME device object the library keeps that
 \* object's previous set, which still offers the primary commands; C16 judges unnamed types on fresh devices
@@ -35,74 +37,92 @@ SetOf(t) == CASE t = "disk" -> "sbc" [] t = "cd" -> "mmc" [] OTHER -> "smc"
 TypeCode(t) == CASE t = "disk" -> 0 [] t = "cd" -> 5 [] OTHER -> 8
 LBAs == {0, 1}
 Vals == {1, 2}
-FaultStatuses == {2, 8, 24, 64}
+\* 2, 3 and 5 stand for CHECK CONDITION with three different sense buffers (fixed format key 5h ASC 24h; fixed
+\* format key 6h ASC 29h; descriptor format key 4h ASC 44h); the others are status bytes
+CCs == {2, 3, 5}
+FaultStatuses == CCs \cup {8, 24, 64}
+KeyOf(st) == CASE st = 2 -> 5 [] st = 3 -> 6 [] OTHER -> 4
 BlockSets == {"sbc", "mmc"}            \* sets in which the library lists READ(10) / WRITE(10)
 CapSets == {"sbc"}                     \* ... READ CAPACITY(10) and ATA PASS-THROUGH(16) (its MMC table has neither)
 Offers9E(s) == s = "sbc"                  \* AttachRules!Offers, restated for the two codes
 OffersA3(s) == s \in {"sbc", "smc"}
 
 Init == /\ ptype = "disk" /\ aset = "sbc" /\ disk = [l \in LBAs |-> 0] /\ cap = 1 /\ ident = 1
-        /\ fault = 0 /\ kept = "none" /\ hist = <<>> /\ exported = FALSE
+        /\ fault = 0 /\ kept = "none" /\ held = 0 /\ bset = "smc" /\ hist = <<>> /\ exported = FALSE
 
 Room == Len(hist) < MaxLen /\ ~exported
-Outcome(st) == IF st = 2 THEN "CheckCondition" ELSE IF Tr = "sgio" THEN "UnspecifiedError" ELSE Named(st)
+Outcome(st) == IF st \in CCs THEN "CheckCondition" ELSE IF Tr = "sgio" THEN "UnspecifiedError" ELSE Named(st)
 Out == IF fault = 0 THEN "ok" ELSE Outcome(fault)
 Rec(a, x, y, out, sent, d1, d2) == [act |-> a, x |-> x, y |-> y, out |-> out, sent |-> sent, d1 |-> d1, d2 |-> d2]
 \* one command goes to the target and consumes the armed completion
-Sent(a, x, y, d1, d2) == /\ hist' = Append(hist, Rec(a, x, y, Out, 1, IF Out = "ok" THEN d1 ELSE 0, IF Out = "ok" THEN d2 ELSE 0))
+\* (a CheckCondition carries its sense key in d1; the caller holds on to the first one it catches)
+Sent(a, x, y, d1, d2) == /\ hist' = Append(hist, Rec(a, x, y, Out, 1, IF Out = "ok" THEN d1 ELSE IF fault \in CCs THEN KeyOf(fault) ELSE 0,
+                                                     IF Out = "ok" THEN d2 ELSE 0))
                          /\ fault' = 0
+                         /\ held' = IF held = 0 /\ fault \in CCs THEN KeyOf(fault) ELSE held
 
 Write(l, v) == /\ Room /\ aset \in BlockSets /\ Sent("write", l, v, 0, 0)
                /\ disk' = IF fault = 0 THEN [disk EXCEPT ![l] = v] ELSE disk
-               /\ UNCHANGED <<ptype, aset, cap, ident, kept, exported>>
+               /\ UNCHANGED <<ptype, aset, cap, ident, kept, bset, exported>>
 Read(l) == /\ Room /\ aset \in BlockSets /\ Sent("read", l, 0, disk[l], 0)
-           /\ UNCHANGED <<ptype, aset, disk, cap, ident, kept, exported>>
+           /\ UNCHANGED <<ptype, aset, disk, cap, ident, kept, bset, exported>>
 \* READ CAPACITY(10) through the facade; with keep = TRUE the caller holds on to the command object
 Cap(keep) == /\ Room /\ aset \in CapSets /\ Sent(IF keep THEN "keepcap" ELSE "cap", 0, 0, cap, 0)
              /\ kept' = IF keep /\ fault = 0 THEN "cap" ELSE kept
-             /\ UNCHANGED <<ptype, aset, disk, cap, ident, exported>>
+             /\ UNCHANGED <<ptype, aset, disk, cap, ident, bset, exported>>
 Inq(keep) == /\ Room /\ Sent(IF keep THEN "keepinq" ELSE "inq", 0, 0, ident, TypeCode(ptype))
              /\ kept' = IF keep /\ fault = 0 THEN "inq" ELSE kept
-             /\ UNCHANGED <<ptype, aset, disk, cap, ident, exported>>
+             /\ UNCHANGED <<ptype, aset, disk, cap, ident, bset, exported>>
 \* the kept object is issued again (facade.execute(cmd); cmd.unmarshall()): it reports the target as it is NOW
 Reissue == /\ Room /\ kept # "none"
            /\ Sent("reissue", 0, 0, IF kept = "cap" THEN cap ELSE ident, IF kept = "cap" THEN 0 ELSE TypeCode(ptype))
-           /\ UNCHANGED <<ptype, aset, disk, cap, ident, kept, exported>>
+           /\ UNCHANGED <<ptype, aset, disk, cap, ident, kept, bset, exported>>
 \* the caller overwrites every value in the result it holds (nothing is sent, nothing else may change)
 Edit == /\ Room /\ kept # "none"
         /\ hist' = Append(hist, Rec("edit", 0, 0, "ok", 0, 0, 0))
-        /\ UNCHANGED <<ptype, aset, disk, cap, ident, fault, kept, exported>>
+        /\ UNCHANGED <<ptype, aset, disk, cap, ident, fault, kept, held, bset, exported>>
 \* ATA PASS-THROUGH(16) asks for raw sense: only modelled with a GOOD completion
 Ata == /\ Room /\ aset \in CapSets /\ fault = 0 /\ Sent("ata", 0, 0, 0, 0)
-       /\ UNCHANGED <<ptype, aset, disk, cap, ident, kept, exported>>
+       /\ UNCHANGED <<ptype, aset, disk, cap, ident, kept, bset, exported>>
 \* re-attach: one INQUIRY; when it completes the set of the type reported NOW is selected
 Reattach == /\ Room /\ Sent("reattach", 0, 0, 0, 0)
             /\ aset' = IF fault = 0 THEN SetOf(ptype) ELSE aset
-            /\ UNCHANGED <<ptype, disk, cap, ident, kept, exported>>
+            /\ UNCHANGED <<ptype, disk, cap, ident, kept, bset, exported>>
 \* commands the facade finds by operation code: sent only if the selected set offers the code
 Probe(code) ==
     /\ Room
     /\ IF (code = "9E" /\ Offers9E(aset)) \/ (code = "A3" /\ OffersA3(aset))
        THEN Sent("probe" \o code, 0, 0, IF code = "9E" THEN cap ELSE 0, 0)
-       ELSE hist' = Append(hist, Rec("probe" \o code, 0, 0, "refused", 0, 0, 0)) /\ UNCHANGED fault
-    /\ UNCHANGED <<ptype, aset, disk, cap, ident, kept, exported>>
+       ELSE hist' = Append(hist, Rec("probe" \o code, 0, 0, "refused", 0, 0, 0)) /\ UNCHANGED <<fault, held>>
+    /\ UNCHANGED <<ptype, aset, disk, cap, ident, kept, bset, exported>>
+\* the caller looks at the error it has been holding: it still says what the target sent with THAT completion
+Inspect == /\ Room /\ held # 0
+           /\ hist' = Append(hist, Rec("inspect", 0, 0, "ok", 0, held, 0))
+           /\ UNCHANGED <<ptype, aset, disk, cap, ident, fault, kept, held, bset, exported>>
+\* the other facade (on its own device, a media changer served by the same target model) asks for the commands
+\* found by operation code and re-attaches: nothing of the first facade's changes
+Other(a) == /\ Room /\ a \in {"b_probe9E", "b_probeA3", "b_reattach"}
+            /\ IF a = "b_probe9E" THEN hist' = Append(hist, Rec(a, 0, 0, "refused", 0, 0, 0)) /\ UNCHANGED <<fault, held>>
+               ELSE Sent(a, 0, 0, 0, 0)
+            /\ UNCHANGED <<ptype, aset, disk, cap, ident, kept, bset, exported>>
 \* the environment
 SetType(t) == /\ Room /\ t # ptype /\ ptype' = t /\ hist' = Append(hist, Rec("settype", TypeCode(t), 0, "ok", 0, 0, 0))
-              /\ UNCHANGED <<aset, disk, cap, ident, fault, kept, exported>>
+              /\ UNCHANGED <<aset, disk, cap, ident, fault, kept, held, bset, exported>>
 Resize == /\ Room /\ cap' = 3 - cap /\ hist' = Append(hist, Rec("resize", 3 - cap, 0, "ok", 0, 0, 0))
-          /\ UNCHANGED <<ptype, aset, disk, ident, fault, kept, exported>>
+          /\ UNCHANGED <<ptype, aset, disk, ident, fault, kept, held, bset, exported>>
 Rename == /\ Room /\ ident' = 3 - ident /\ hist' = Append(hist, Rec("rename", 3 - ident, 0, "ok", 0, 0, 0))
-          /\ UNCHANGED <<ptype, aset, disk, cap, fault, kept, exported>>
+          /\ UNCHANGED <<ptype, aset, disk, cap, fault, kept, held, bset, exported>>
 Arm(st) == /\ Room /\ fault = 0 /\ fault' = st /\ hist' = Append(hist, Rec("arm", st, 0, "ok", 0, 0, 0))
-           /\ UNCHANGED <<ptype, aset, disk, cap, ident, kept, exported>>
+           /\ UNCHANGED <<ptype, aset, disk, cap, ident, kept, held, bset, exported>>
 Export == /\ Len(hist) = MaxLen /\ ~exported
           /\ PrintT(<<"SESSION", ToJson([tr |-> Tr, steps |-> hist])>>)
-          /\ exported' = TRUE /\ UNCHANGED <<ptype, aset, disk, cap, ident, fault, kept, hist>>
+          /\ exported' = TRUE /\ UNCHANGED <<ptype, aset, disk, cap, ident, fault, kept, held, bset, hist>>
 
 Next == \/ \E l \in LBAs, v \in Vals : Write(l, v)
         \/ \E l \in LBAs : Read(l)
         \/ \E k \in BOOLEAN : Cap(k) \/ Inq(k)
-        \/ Reissue \/ Edit \/ Ata \/ Reattach
+        \/ Reissue \/ Edit \/ Ata \/ Reattach \/ Inspect
+        \/ \E a \in {"b_probe9E", "b_probeA3", "b_reattach"} : Other(a)
         \/ \E c \in {"9E", "A3"} : Probe(c)
         \/ \E t \in Types : SetType(t)
         \/ Resize \/ Rename
